@@ -176,6 +176,13 @@ def rewrite_float(body, rewrites, float_params=()):
                 return m.group(0)
             return 'ieee_from_i64(%s as i64)' % m.group(1)
         body = re.sub(r'((?<![\w.)])[A-Za-z_][\w:]*(?:\.\w+\(\))*)\s+as\s+f64\b', conv, body)
+        # a parenthesised integer expression (no double inside) converted as a whole
+        def conv_paren(m):
+            inner = m.group(1)
+            if 'ieee_' in inner or re.search(r'\b(?:%s)\b' % names, inner) or 'f64' in inner:
+                return m.group(0)
+            return 'ieee_from_i64((%s) as i64)' % inner
+        body = re.sub(r'(?<![\w>])\(((?:[^()]|\([^()]*\))*)\)\s+as\s+f64\b', conv_paren, body)
         body = re.sub(r'(?<![\w>])\(\s*(%s)\s*\)' % atom, r'\1', body)              # (atom) -> atom, never a call's argument list
         body = re.sub(r'(%s)\s*\*\s*(%s)' % (atom, atom), r'ieee_mul(\1, \2)', body, count=1)
         body = re.sub(r'(%s)\s*/\s*(%s)' % (atom, atom), r'ieee_div(\1, \2)', body, count=1)
